@@ -21,7 +21,7 @@ SERVER_ENCRYPT = bytes.fromhex("CC98AE04E897EACA12DDC09342915357")  # server -> 
 SERVER_DECRYPT = bytes.fromhex("C2B3723CC6AED9B5343C53EE2F4367CE")  # client -> server
 DROP = 1024
 IC = "wrath_header::inner_crypto::InnerCrypto"
-FLOORS = {"derivation": 3, "direction": 5, "prga": 4, "ksa": 4, "keystream": 3, "state-writers": 2}
+FLOORS = {"entry-points": 36, "derivation": 3, "direction": 5, "prga": 4, "ksa": 4, "keystream": 3, "state-writers": 2}
 
 
 def applicable(feats):
@@ -29,6 +29,12 @@ def applicable(feats):
 
 
 def check(ctx, rep):
+    # "the receiver recovers the sender's headers": every entry point of this expansion that
+    # feeds bytes to the cipher (typed helpers, Read/Write wrappers, facade) must hand the raw
+    # operation exactly the bytes of the header, once - the obligations C11 decides, filed here
+    # for this expansion's functions
+    from rules import c11
+    c11.check(ctx, util.Refile(rep, "entry-points", None, lambda fn: fn.startswith("wrath_header::")))
     fb = ctx.fb
     # ---------------- derivation
     fn = IC + "::new"
